@@ -1,7 +1,9 @@
+import ShkModel.Gen.ClauseRe
 /-!
 # C06 — storylines: merge (`storyline.go`), validation (`config.go`), compilation (`compile.go`)
 
-Strings are modelled as `List Char`, one `Char` per *byte* (the Go code indexes bytes).
+Strings are modelled as `List Char`, one `Char` per *byte* (the Go code indexes bytes; `strings.TrimSpace` removes
+white-space code points, ASCII or not: `trim` recognises their UTF-8 encodings).
 Durations are natural numbers of nanoseconds.  Core only.
 
 Part 1 follows the Go code statement by statement (`extractAction`, `combineActs`,
@@ -57,12 +59,46 @@ def combineStory : List Act → List Act → List Act
 
 /-! ## Part 1b — `validateStoryLine` -/
 
-/-- ASCII white space (what `strings.TrimSpace` removes from an ASCII string). -/
+/-- ASCII white space -/
 def isSpace (c : Char) : Bool :=
   c == ' ' || c == '\t' || c == '\n' || c == '\x0b' || c == '\x0c' || c == '\r'
 
+/-- number of bytes of the white-space code point a byte string starts with (0: none).  `unicode.IsSpace`: the six
+ASCII ones, U+0085, U+00A0, U+1680, U+2000–U+200A, U+2028, U+2029, U+202F, U+205F, U+3000 in UTF-8 -/
+def spaceLen : List Char → Nat
+  | [] => 0
+  | c :: rest =>
+    if isSpace c then 1 else
+    match c.toNat, rest with
+    | 0xC2, d :: _ => if d.toNat == 0x85 || d.toNat == 0xA0 then 2 else 0
+    | 0xE1, d :: e :: _ => if d.toNat == 0x9A && e.toNat == 0x80 then 3 else 0
+    | 0xE2, d :: e :: _ =>
+      if d.toNat == 0x80 && ((0x80 ≤ e.toNat && e.toNat ≤ 0x8A) || e.toNat == 0xA8 || e.toNat == 0xA9 || e.toNat == 0xAF) then 3
+      else if d.toNat == 0x81 && e.toNat == 0x9F then 3 else 0
+    | 0xE3, d :: e :: _ => if d.toNat == 0x80 && e.toNat == 0x80 then 3 else 0
+    | _, _ => 0
+
+/-- the same at the end of a byte string, given reversed -/
+def spaceLenR : List Char → Nat
+  | [] => 0
+  | c :: rest =>
+    if isSpace c then 1 else
+    match rest with
+    | d :: more =>
+      if d.toNat == 0xC2 && (c.toNat == 0x85 || c.toNat == 0xA0) then 2 else
+      match more with
+      | e :: _ => if spaceLen [e, d, c] == 3 then 3 else 0
+      | [] => 0
+    | [] => 0
+
+/-- drop white-space code points from the front, at most `fuel` of them -/
+def dropSpaces (len : List Char → Nat) : Nat → List Char → List Char
+  | 0, l => l
+  | fuel + 1, l => if len l = 0 then l else dropSpaces len fuel (l.drop (len l))
+
+/-- `strings.TrimSpace` on the bytes of a string -/
 def trim (l : List Char) : List Char :=
-  ((l.dropWhile isSpace).reverse.dropWhile isSpace).reverse
+  (dropSpaces spaceLenR l.length (dropSpaces spaceLen l.length l).reverse).reverse
 
 def consHead (c : Char) : List (List Char) → List (List Char)
   | [] => [[c]]
@@ -236,6 +272,9 @@ def St.init : St := ⟨fun _ => none, []⟩
 def isShort (c : Char) : Bool :=
   ('a' ≤ c && c ≤ 'z') || ('A' ≤ c && c ≤ 'Z') || ('0' ≤ c && c ≤ '9')
 
+/-- `p.id(…)`: the name matches `identRe` (the regenerated regexp of `pkg/cmd/parsecfg.go`) -/
+def isIdent (n : List Char) : Bool := (Shk.Re.run Shk.Gen.identRe n).isSome
+
 /-- `selectActors`: the role whose actions are checked, and the actors found -/
 def selectActors (cfg : Cfg) : Target → Option (String × List String)
   | .every r =>
@@ -272,6 +311,7 @@ def step (cfg : Cfg) (st : St) : Clause → Option St
       else none
   | .mood c starts m =>
     if isShort c = false then none else
+    if isIdent m.toList = false then none else
     some ⟨upsert st.table c fun sc =>
       if starts then { sc with moodStart := m } else { sc with moodEnd := m }, st.story⟩
   | .storyline text =>
